@@ -69,10 +69,12 @@ func createShellFunctions() {
 		if s.Term != nil {
 			s.Term.Suspend()
 		}
+		prevContext, prevCancel := s.Context, s.Cancel
 		//nolint:fatcontext // we do need to update/reset the context and its cancel function.
 		s.Context, s.Cancel = context.WithCancel(context.Background()) // no timeout.
 		cmd, oerr := createCmd(*s, args)
 		if oerr != nil {
+			s.Context, s.Cancel = prevContext, prevCancel
 			return *oerr
 		}
 		log.Infof("Running %#v", cmd)
@@ -82,6 +84,8 @@ func createShellFunctions() {
 		err := cmd.Run()
 		if s.Term != nil {
 			s.Context, s.Cancel = s.Term.Resume(context.Background())
+		} else {
+			s.Context, s.Cancel = prevContext, prevCancel // the rest of the evaluation is under its deadline again.
 		}
 		if err != nil {
 			return s.Error(err)
